@@ -11,6 +11,12 @@ func init() {
 }
 
 func init() {
-	props["C37"] = &propCfg{Engine: "nodesim", Test: "TestC37", Level: "exploration", Race: true, Overlay: "pin",
-		Quick: tierCfg{Runs: 480, JobSize: 30, BudgetS: 170}, Thorough: tierCfg{Runs: 16000, JobSize: 50, BudgetS: 1700}}
+	props["C37"] = &propCfg{Engine: "nodesim", Test: "TestC37", Level: "exploration", Race: true, Overlay: "simrt",
+		Quick: tierCfg{Runs: 320, JobSize: 10, BudgetS: 170}, Thorough: tierCfg{Runs: 16000, JobSize: 25, BudgetS: 1700}}
+}
+
+func init() {
+	// deterministic-scheduler half of C37 (instrumented build); registered under its own key for development
+	props["C37d"] = &propCfg{Engine: "nodesim", Test: "TestC37d", Level: "exploration", Overlay: "simrt",
+		Quick: tierCfg{Runs: 320, JobSize: 10, BudgetS: 150}, Thorough: tierCfg{Runs: 16000, JobSize: 25, BudgetS: 1500}}
 }
